@@ -659,6 +659,50 @@ for _g in range(N_GROUPS):
 # unbounded function contracts
 
 
+# which templates are accepted: the documented conflict table of two sibling segments (comment block of conflicts_with and the routing docs):
+#   simple vs simple -> conflict; complex vs complex -> conflict iff they have the same shape once every field is replaced by one symbol;
+#   every other combination (literal on either side, simple vs complex in either order) -> no conflict.
+_CONFLICT_SEGMENTS = [
+    ('lit', 'all'), ('lit', 'v1.json'),
+    ('simple', '{name}'), ('simple', '{id:int}'), ('simple', '{rest:path}'),
+    ('complex', '{stem}.json'), ('complex', 'v{n}'), ('complex', '{id:int}.gif'),            # ONE field plus literal text is complex too
+    ('complex', '{a}.{b}'), ('complex', '{x}.{y}'), ('complex', '{a}-{b}'), ('complex', '{a}.detail.{b}'), ('complex', '{other}.json'),
+]
+
+
+def _shape(seg):
+    return re.sub(r'{[^}]*}', '\0', seg)
+
+
+def _documented_conflict(a, b):
+    (ka, sa), (kb, sb) = a, b
+    if ka == 'simple' and kb == 'simple':
+        return True
+    if ka == 'complex' and kb == 'complex':
+        return _shape(sa) == _shape(sb)
+    return False
+
+
+@harness(PROP, RM + ':CompiledRouterNode.conflicts_with', name='conflict_table')
+def conflict_table(v):
+    """A template is rejected exactly when one of its segments conflicts with an existing sibling: the table decides which route sets exist at all
+    (a legal template that is rejected, or a conflicting one that is accepted, changes every later lookup)."""
+    if v.concrete:
+        return
+    n = len(_CONFLICT_SEGMENTS)
+    i, j = v.choose(n, 'existing-sibling'), v.choose(n, 'new-segment')
+    a, b = _CONFLICT_SEGMENTS[i], _CONFLICT_SEGMENTS[j]
+    node_cls = v.real(RM + ':CompiledRouterNode')
+    node = node_cls(a[1])   # the existing node: built by the real (native) constructor; the method under contract runs from source
+    if node.matches(b[1]):
+        v.cover('same-segment')
+        return            # an identical segment is the same node, not a sibling (precondition of conflicts_with)
+    out = v.call(node, b[1])
+    v.check('conflict-decision-follows-the-documented-table', out.exc is None and out.value is _documented_conflict(a, b),
+            existing=a[1], new=b[1], want=_documented_conflict(a, b))
+    v.cover('decided')
+
+
 @harness(PROP, RM + ':CompiledRouter.find')
 def router_find(v):
     """find(): fresh params per call; None iff _find returns None; else (resource, method_map or {}, params, uri_template)."""
@@ -778,13 +822,17 @@ NOT_DECIDED = [
     'route sets (programs) are enumerated to a bound: quick = 10 fixed + ~250 seeded random histories of <= 3 templates of depth <= 3 over 13 segment shapes, '
     'each with and without interleaved lookups; thorough = ~1500 histories of <= 4 templates, also with compile=True; request paths are NOT bounded',
     'the generator itself (_generate_ast) is not proved correct for all trees -- that is compiler correctness by induction, outside this technique here',
-    'conflicts_with table and sort key as separate unbounded contracts (covered only through the per-program check)',
+    'conflicts_with: the documented table is checked on 13 representative segments (all pairs), not for arbitrary segment strings; the sort key only through the per-program check',
 ]
 TRUSTED = ['oracle_find / build_trie / parse_segment (independent 90-line specification) and the Env of uninterpreted matching in contracts/C01_router.py']
 
 
 _CP = 'falcon/routing/compiled.py'
 KILLS = [
+    # "has one field" confused with "is not complex": a legal single-field-plus-text segment is rejected next to a simple field
+    (_CP, "                return other.is_var and not other.is_complex\n", "                return other.num_fields == 1\n", 'conflicts_with#conflict-decision-follows-the-documented-table'),
+    # two complex siblings of the same shape accepted
+    (_CP, "                if other.is_complex:\n                    return _FIELD_PATTERN.sub(", "                if other.is_complex and False:\n                    return _FIELD_PATTERN.sub(", 'conflicts_with#conflict-decision-follows-the-documented-table'),
     # literal < multi-field < single-field ordering lost: a single-field node masks a multi-field sibling
     (_CP, "nodes, key=lambda node: node.is_var + (node.is_var and not node.is_complex)", "nodes, key=lambda node: node.is_var + (node.is_var and node.is_complex)",
      'lookup-equals-depth-first-walk-of-accepted-templates'),
